@@ -221,6 +221,206 @@ def run_impl(uni, cache, grouped, ops):
     return {'partial': sorted(partial), 'readvertised': readvertised, 'emit_counts': emit_counts, 'gens': gens, 'seen': sorted(seen), 'peer': dict(peer), 'pending': rib.pending(), 'live': cur is not None or bool(buf)}
 
 
+
+# ------------------------------------------------------------------------------- peer mode (wire level)
+#
+# The same operation histories, but the update generator is created, consumed and replaced by the REAL
+# Peer._send_route_updates / Peer._send_eor_messages, the messages are encoded by the REAL
+# Protocol.new_update_generator / new_eors (UpdateCollection.messages with include_withdraw) and written
+# to a recording connection; what was written is decoded by the real decoder and applied to a peer table.
+
+PEER_CONF = """
+neighbor 127.0.0.2 { router-id 1.2.3.4; local-address 127.0.0.1; local-as 65000; peer-as 65001;
+  family { ipv4 unicast; ipv6 unicast; } }
+"""
+
+
+class RecordingConnection:
+    def __init__(self):
+        self.written = []
+        self.io = object()
+
+    async def writer_async(self, data):
+        self.written.append(bytes(data))
+
+    def session(self):
+        return 'rec-1'
+
+    def name(self):
+        return 'rec-1 local-peer'
+
+    def fd(self):
+        return -1
+
+    def close(self):
+        pass
+
+
+class PeerRig:
+    def __init__(self):
+        from harness.apirig import Rig
+        from exabgp.reactor.protocol import Protocol
+        from exabgp.configuration.check import _negotiated
+
+        self.rig = Rig(PEER_CONF)
+        self.key, self.neighbor = next(iter(self.rig.configuration.neighbors.items()))
+        self.peer = self.rig.reactor._peers[self.key]
+        self.neg_in, self.neg_out = _negotiated(self.neighbor)
+        self.proto = Protocol(self.peer)
+        self.proto.negotiated = self.neg_out
+        self.conn = RecordingConnection()
+        self.proto.connection = self.conn
+        self.peer.proto = self.proto
+        self.rib = self.neighbor.rib.outgoing
+        self.text_routes = {}
+
+    def route(self, uni, key):
+        """a Route of THIS configuration for the universe key (prefix, attr, nexthop)"""
+        if key not in self.text_routes:
+            p, a, h = key
+            fam, prefix = uni.prefixes[p]
+            rs = self.rig.configuration.parse_route_text(f'route {prefix} next-hop {uni.nhs[fam][h]} {uni.attrs[a]}')
+            self.text_routes[key] = self.neighbor.resolve_self(rs[0])
+        return self.text_routes[key]
+
+    def decode(self, uni, raw):
+        """one written message -> list of ('ann', prefix, (attr id, nh)) / ('wd', prefix) / ('eor', fam)"""
+        from exabgp.bgp.message import Message, Update
+
+        out = []
+        if raw[18] != 2:
+            return [('other', raw[18])]
+        msg = Message.unpack(2, raw[19:], self.neg_in)
+        if getattr(msg, 'IS_EOR', False):
+            out.append(('eor', str(msg.nlris[0].family()) if msg.nlris else 'ipv4 unicast'))
+            return out
+        data = msg.data
+        for nlri in data.withdraws:
+            out.append(('wd', str(nlri.cidr) if hasattr(nlri, 'cidr') else str(nlri)))
+        text = str(data.attributes)
+        aid = None
+        for i, a in enumerate(uni.attrs):
+            want_comm = 'community' in a
+            med = a.split()[1]
+            if f'med {med}' in text and (('community' in text) == want_comm):
+                aid = i
+        for routed in data.announces:
+            out.append(('ann', str(routed.nlri.cidr) if hasattr(routed.nlri, 'cidr') else str(routed.nlri), (aid, str(routed.nexthop))))
+        return out
+
+
+def run_peer_mode(uni, ops, per_iter):
+    """-> dict(problems=[(sig, what)], peer, reported)"""
+    import asyncio
+
+    pr = PeerRig()
+    loop = pr.rig.loop
+    asyncio.set_event_loop(loop)
+    state = {'new_routes': None, 'include_withdraw': False, 'send_eor': True, 'up': True}
+    peer_table = {}
+    problems = []
+    intended = {}
+    eor_seen = {'count': 0}
+    session = {'snapshot': {}, 'touched': set(), 'eors': 0}
+
+    def key_of(key):
+        return str(pr.route(uni, key).nlri.cidr)
+
+    def val_of(key):
+        fam, prefix = uni.prefixes[key[0]]
+        return (key[1], uni.nhs[fam][key[2]])
+
+    def drain_written():
+        for raw in pr.conn.written:
+            for ev in pr.decode(uni, raw):
+                if ev[0] == 'ann':
+                    peer_table[ev[1]] = ev[2]
+                elif ev[0] == 'wd':
+                    peer_table.pop(ev[1], None)
+                elif ev[0] == 'eor':
+                    session['eors'] += 1
+                    if session['eors'] == 1:
+                        # the whole table as it stood at establishment must have been sent by now
+                        for k, v in session['snapshot'].items():
+                            if k in session['touched']:
+                                continue
+                            if peer_table.get(k) != v:
+                                problems.append(('eor-before-full-table', f'End-of-RIB written while {k} {v} of the initial table was not yet sent (peer has {peer_table.get(k)})'))
+                                break
+        pr.conn.written = []
+
+    async def iteration():
+        nr, iw = await pr.peer._send_route_updates(state['new_routes'], state['include_withdraw'], per_iter)
+        state['new_routes'], state['include_withdraw'] = nr, iw
+        state['send_eor'] = await pr.peer._send_eor_messages(state['send_eor'], state['new_routes'])
+
+    for op in ops:
+        kind = op[0]
+        if kind in ('ann', 'annf'):
+            pr.rib.add_to_rib(pr.route(uni, op[1]), kind == 'annf')
+            intended[key_of(op[1])] = val_of(op[1])
+            session['touched'].add(key_of(op[1]))
+        elif kind == 'wd':
+            pr.rib.del_from_rib(pr.route(uni, op[1]))
+            intended.pop(key_of(op[1]), None)
+            session['touched'].add(key_of(op[1]))
+        elif kind == 'resend':
+            pr.rib.resend(op[1], None if op[2] is None else uni.fam_tuple(op[2]))
+        elif kind == 'wdall':
+            fams = [0, 1] if op[1] is None else op[1]
+            pr.rib.withdraw(None if op[1] is None else {uni.fam_tuple(f) for f in op[1]})
+            for k in list(intended):
+                if (0 if '.' in k else 1) in fams:
+                    intended.pop(k)
+                    session['touched'].add(k)
+        elif kind == 'drop':
+            pr.neighbor.reset_rib()
+            state.update({'new_routes': None, 'up': False})
+            peer_table.clear()
+            pr.conn.written = []
+        elif kind == 'establish':
+            if not state['up']:
+                # Peer._main prologue
+                pr.rib.replace_restart([], [])
+                state.update({'new_routes': None, 'include_withdraw': False, 'send_eor': True, 'up': True})
+                session.update({'snapshot': dict(intended), 'touched': set(), 'eors': 0})
+        elif kind in ('start', 'emit'):
+            if state['up']:
+                loop.run_until_complete(iteration())
+                drain_written()
+    # drain
+    if not state['up']:
+        pr.rib.replace_restart([], [])
+        state.update({'new_routes': None, 'include_withdraw': False, 'send_eor': True, 'up': True})
+        session.update({'snapshot': dict(intended), 'touched': set(), 'eors': 0})
+    for _ in range(200):
+        loop.run_until_complete(iteration())
+        drain_written()
+        if state['new_routes'] is None and not pr.rib.pending() and not state['send_eor']:
+            break
+    reported = {}
+    for r in pr.rib.cached_routes():
+        txt = str(r.attributes)
+        aid = None
+        for i, a in enumerate(uni.attrs):
+            if f'med {a.split()[1]}' in txt and (('community' in txt) == ('community' in a)):
+                aid = i
+        reported[str(r.nlri.cidr)] = (aid, str(r.nexthop))
+    if pr.rib.pending() or state['new_routes'] is not None:
+        problems.append(('schedule-not-drained', 'the queue did not drain in 200 iterations'))
+    elif peer_table != reported:
+        problems.append(('wire:peer-differs-from-reported', f'peer {peer_table} reported {reported}'))
+    elif reported != intended:
+        problems.append(('wire:reported-differs-from-intended', f'reported {reported} intended {intended}'))
+    if session['eors'] != 2:
+        problems.append(('wire:eor-count', f'{session["eors"]} End-of-RIB markers in the last session, 2 families negotiated'))
+    pr.rig.close()
+    from exabgp.rib import RIB
+
+    RIB._cache.clear()
+    return {'problems': problems, 'peer': peer_table, 'reported': reported}
+
+
 # ------------------------------------------------------------------------------- model side
 
 HEADER = """From Coq Require Import ZArith Bool List.
@@ -511,6 +711,33 @@ def check(tier, seed, pid='C04'):
                 conv_bad.append((idx, 'peer-differs-from-reported', f'peer {im["peer"]} reported {reported}'))
             elif reported != want:
                 conv_bad.append((idx, 'reported-differs-from-intended', f'reported {reported} intended {want}'))
+
+    # wire-level pass through the real Peer/Protocol functions on a sample of the same histories
+    wire_bad = []
+    n_wire = 250 if tier == 'quick' else 5000
+    rngw = random.Random(seed + 7)
+    wire_idx = rngw.sample(range(len(cases)), min(n_wire, len(cases)))
+    long_hist = [('ann', (p, a, 0)) for p in range(len(uni.prefixes)) for a in (0, 1)]  # more UPDATEs than one iteration sends
+    wire_cases = [(cases[i][2][: len(cases[i][2]) - TAIL], rngw.choice([1, 2, 3, 25])) for i in wire_idx if cases[i][0]]
+    wire_cases.append((long_hist + [('emit',)] * 2 + [('ann', (0, 2, 1))] + [('emit',)] * 2, 2))
+    wire_cases.append((long_hist + [('drop',), ('establish',)] + [('emit',)] * 3, 3))
+    for wops, per_iter in wire_cases:
+        wops = [o for o in wops if o[0] not in ('wadd', 'wann', 'wwd')]
+        if pid != 'C11':
+            wops = [o for o in wops if o[0] not in ('drop', 'establish')]
+        res = run_peer_mode(uni, wops, per_iter)
+        for sig, what in res['problems']:
+            wire_bad.append((sig, what, wops, per_iter))
+    run.obligation(f'property oracle (wire level): the same histories through the real Peer._send_route_updates / _send_eor_messages / '
+                   f'Protocol.new_update_generator on {len(wire_cases)} histories: decoded peer table = cached_routes() = intention, one End-of-RIB per '
+                   'family after the initial table',
+                   not wire_bad, f'{len(wire_bad)} failing; first: {wire_bad[0][:2] if wire_bad else ""}')
+    seen_wire = set()
+    for sig, what, wops, per_iter in wire_bad:
+        if sig in seen_wire:
+            continue
+        seen_wire.add(sig)
+        run.fail_case(sig, what, {'operations': [str(o) for o in wops], 'routes_per_iteration': per_iter})
 
     first = ''
     if corr_bad:
